@@ -30,6 +30,13 @@ def main():
     os.makedirs(outdir, exist_ok=True)
     corpus = os.path.join(outdir, 'corpus')
     os.makedirs(corpus, exist_ok=True)
+    # seed corpus: a few random byte strings long enough to decode into complete cases of large strategies (histories);
+    # libFuzzer also keeps the empty input
+    import numpy as _np
+    _rng = _np.random.default_rng(seed)
+    for _i, _n in enumerate((64, 512, 2048, 4096, 4096)):
+        with open(os.path.join(corpus, f'seed{_i}'), 'wb') as _f:
+            _f.write(_rng.integers(0, 256, size=_n, dtype=_np.uint8).tobytes())
     mod = core._load(prop_id)
     part = next(p for p in mod.PARTS if p.name == part_name)
     from hypothesis import given, settings, HealthCheck
@@ -72,7 +79,7 @@ def main():
         if state['n'] % 500 == 0:
             dump()
 
-    argv = [sys.argv[0], f'-runs={runs}', f'-seed={seed if seed > 0 else 1}', '-max_len=4096', '-print_final_stats=0', '-verbosity=0', corpus]
+    argv = [sys.argv[0], f'-runs={runs}', f'-seed={seed if seed > 0 else 1}', '-max_len=8192', '-print_final_stats=0', '-verbosity=0', corpus]
     atheris.Setup(argv, target)
     dump()
     atheris.Fuzz()
